@@ -2100,6 +2100,7 @@ func (a *Association) handleInit(pkt *packet, initChunk *chunkInit) ([]*packet, 
 	a.peerInterleaving = false
 	a.peerForwardTSN = false
 	a.peerIForwardTSN = false
+	a.sendZeroChecksum = false
 
 	for _, param := range initChunk.params {
 		switch val := param.(type) { // nolint:gocritic
@@ -2203,6 +2204,7 @@ func (a *Association) handleInitAck(pkt *packet, initChunkAck *chunkInitAck) err
 	a.peerInterleaving = false
 	a.peerForwardTSN = false
 	a.peerIForwardTSN = false
+	a.sendZeroChecksum = false
 
 	var cookieParam *paramStateCookie
 	for _, param := range initChunkAck.params {
